@@ -16,6 +16,11 @@ var suites = map[string]func(tier string) []*families.Case{
 	"f1q":  func(tier string) []*families.Case { return families.F1(1, 3, 3, []string{"", "i", "s", "is", "n", "nis"}) },
 	"f12":  func(tier string) []*families.Case { return families.F12(3, []string{"", "i", "n"}) },
 	"f2d":  func(tier string) []*families.Case { return families.F2D(3, 8, 3, []string{"", "s", "is"}) },
+	"f4l":  func(tier string) []*families.Case { return families.F4L(2, []string{"", "s"}) },
+	"f2d2": func(tier string) []*families.Case { return families.F2D(2, 13, 4, []string{"", "s", "is"}) },
+	"f16":  func(tier string) []*families.Case { return families.F16(4, []string{"", "i", "is"}) },
+	"nc":   func(tier string) []*families.Case { return families.NestedCaptures(5, []string{"", "n", "nis"}) },
+	"f7":   func(tier string) []*families.Case { return families.F7(3, 3, []string{"", "is"}) },
 }
 
 // histSuite: operation histories on one parser instance (C12).
@@ -66,7 +71,7 @@ func behSuite(tier string) []*families.Case {
 		cs = append(cs, families.F2(3, 22, []string{"plain"}, false, 3, []string{"", "s", "is"})...)
 		cs = append(cs, families.F2(3, 8, []string{"plain", "star", "after", "peek", "outer"}, true, 3, []string{"", "s", "is", "ns"})...)
 		cs = append(cs, families.F2(4, 8, []string{"plain"}, false, 3, []string{"", "s"})...)
-		cs = append(cs, families.F2D(3, 12, 3, []string{"", "s", "is", "ns"})...)
+		cs = append(cs, families.F2D(3, 13, 3, []string{"", "s", "is", "ns"})...)
 		cs = append(cs, families.F2D(4, 6, 3, []string{"", "s"})...)
 		cs = append(cs, families.F3(4, spec.AllVariants)...)
 		cs = append(cs, families.F4(3, spec.AllVariants)...)
@@ -81,6 +86,8 @@ func behSuite(tier string) []*families.Case {
 		cs = append(cs, families.F14(4, spec.AllVariants)...)
 		cs = append(cs, families.F15(3, spec.AllVariants)...)
 		cs = append(cs, families.NestedCaptures(5, spec.AllVariants)...)
+		cs = append(cs, families.F16(5, spec.ASTVariants)...)
+		cs = append(cs, families.F4L(2, []string{"", "s", "n", "nis"})...)
 		h := append(families.F1(1, 3, 0, nil), families.F4(0, nil)...)
 		h = append(h, families.F7(2, 0, nil)...)
 		cs = append(cs, families.Hostile(h, 4, []string{"", "is", "n"})...)
@@ -88,6 +95,7 @@ func behSuite(tier string) []*families.Case {
 		cs = append(cs, families.F1(1, 3, 3, []string{"", "i", "s", "is", "n", "nis"})...)
 		cs = append(cs, families.F2(3, 8, []string{"plain"}, false, 3, []string{"", "is"})...)
 		cs = append(cs, families.F2D(3, 8, 3, []string{"", "s"})...)
+		cs = append(cs, families.F2D(2, 13, 4, []string{"", "s", "is"})...)
 		cs = append(cs, families.F3(3, []string{"", "is", "n"})...)
 		cs = append(cs, families.F4(3, []string{"", "s", "n"})...)
 		cs = append(cs, families.F5(4, []string{"", "is"})...)
@@ -101,6 +109,8 @@ func behSuite(tier string) []*families.Case {
 		cs = append(cs, families.F14(4, []string{"", "is", "n"})...)
 		cs = append(cs, families.F15(3, []string{"", "s"})...)
 		cs = append(cs, families.NestedCaptures(5, []string{"", "n", "nis"})...)
+		cs = append(cs, families.F16(4, []string{"", "i", "is"})...)
+		cs = append(cs, families.F4L(2, []string{"", "s"})...)
 		h := append(families.F1(1, 2, 0, nil), families.F4(0, nil)[:40]...)
 		cs = append(cs, families.Hostile(h, 3, []string{"", "is"})...)
 	}
